@@ -173,6 +173,9 @@ class Result:
         self.count("violations_raw")
         if key in self._viol_keys:
             return
+        if len(self.violations) >= 40:  # enough witnesses; the rest is only counted
+            self.count("violations_not_written")
+            return
         self._viol_keys.add(key)
         path = write_replay(self.prop, key, summary, payload, self.tier)
         self.violations.append({"key": key, "summary": summary, "replay": str(path)})
@@ -320,3 +323,31 @@ def load_replay(path: str) -> dict:
     doc = json.loads(pathlib.Path(path).read_text())
     doc["case"] = from_full_json(doc["case"])
     return doc
+
+
+def replay_by_rerun(prop: str, path: str, run_fn) -> int:  # noqa: ANN001
+    """Replay for checks whose cases are a deterministic function of (seed, tier): re-run the check with the recorded
+    seed and tier and report whether the recorded violation key reappears."""
+    doc = load_replay(path)
+    os.environ["VERIF_SEED"] = str(doc.get("seed", 0))
+    os.environ["VERIF_TIER"] = doc.get("tier", "quick")
+    print(f"replay {prop}: re-running the whole check with seed={doc.get('seed')} tier={doc.get('tier')} (looking for key {doc.get('key')!r})")
+    rc = run_fn(prop, doc.get("tier", "quick"))
+    return rc
+
+
+def finish_replay(res: "Result") -> int:
+    """Common tail of a single-case replay."""
+    if res.violations:
+        for v in res.violations:
+            print(f"VIOLATION property={res.prop} replay={v['replay']}")
+            print(f"  {v['summary'][:600]}")
+        return EXIT_VIOLATED
+    for fid, n in res.known.items():
+        print(f"KNOWN-FINDING: property={res.prop} {fid}: {res.known_summaries.get(fid, '')} (observed {n}x)")
+    if res.inconclusive:
+        for r in res.inconclusive:
+            print(f"INCONCLUSIVE property={res.prop} reason={r}")
+        return EXIT_INCONCLUSIVE
+    print(f"{res.prop}: replayed case shows no violation on the current tree")
+    return EXIT_HELD
